@@ -41,8 +41,12 @@ def key(i):
     return json.dumps(i)
 
 
+VALUES = [(10.0, 2.5), (1024.0, 2.0 ** -14)]    # well separated / nearly equal around a large offset
+BASE, GAP = VALUES[0]
+
+
 def fitness(rank, maximize):
-    g = 10.0 + 2.5 * rank
+    g = BASE + GAP * rank
     return -g if maximize else g
 
 
@@ -76,6 +80,8 @@ def main(table_path, out_path):
         c = json.loads(line)
         fam = c["fam"]
         distinct += 1
+        global BASE, GAP
+        BASE, GAP = VALUES[distinct % 2] if fam in ("demelimit", "levellimit") else VALUES[0]
         ok = {json.dumps(sorted(key(i) for i in s)) for s in c["ok"]}
         if len(c["cands"]) > 1:
             nontrivial += 1
